@@ -40,6 +40,16 @@ def f_a(x: TA, y: TA) -> TA: ...
 def f_c(x: TC, y: TC) -> TC: ...
 def f_d(x: TD, y: TD) -> TD: ...
 def f_cl(xs: list[TC], y: TC) -> TC: ...
+# twins whose return annotation mentions no type variable: a failure of the joint solve must be
+# reported although nothing is substituted into the return type (round-2 seeded change)
+def n_xy(x: T, y: T) -> None: ...
+def n_c(x: TC, y: TC) -> bool: ...
+def n_d(x: TD, y: TD) -> int: ...
+def n_b(x: TB, y: TB) -> None: ...
+def n_cl(xs: list[TC], y: TC) -> bool: ...
+def n_cb(x: T, cb: Callable[[T], None]) -> None: ...
+def n_cb2(cb1: Callable[[T], None], cb2: Callable[[T], None], x: T) -> int: ...
+def n_list(xs: list[T], cb: Callable[[T], None]) -> None: ...
 def f_opt(x: T | None, y: T) -> T: ...
 def f_or(x: T | list[T], y: T) -> T: ...
 def f_opt1(x: T | None) -> T: ...
@@ -73,6 +83,14 @@ SIGS = {
     "f_c": (f_c, ["s", "s"], True),
     "f_d": (f_d, ["s", "s"], True),
     "f_cl": (f_cl, ["l", "s"], False),
+    "n_xy": (n_xy, ["s", "s"], True),
+    "n_c": (n_c, ["s", "s"], True),
+    "n_d": (n_d, ["s", "s"], True),
+    "n_b": (n_b, ["s", "s"], True),
+    "n_cl": (n_cl, ["l", "s"], False),
+    "n_cb": (n_cb, ["s", "c"], False),
+    "n_cb2": (n_cb2, ["c", "c", "s"], False),
+    "n_list": (n_list, ["l", "c"], False),
     "f_opt": (f_opt, ["s", "s"], False),
     "f_or": (f_or, ["sl", "s"], False),
     "f_opt1": (f_opt1, ["s"], False),
@@ -89,6 +107,8 @@ BARE = {
     "f_dict": {1: "~K"}, "f_cb": {0: "~T"}, "f_cbx": {2: "~T"}, "f_b": {0: "~TB", 1: "~TB"}, "f_a": {0: "~TA", 1: "~TA"},
     "f_c": {0: "~TC", 1: "~TC"}, "f_d": {0: "~TD", 1: "~TD"}, "f_cl": {1: "~TC"},
     "f_opt": {1: "~T"}, "f_or": {1: "~T"},
+    "n_xy": {0: "~T", 1: "~T"}, "n_c": {0: "~TC", 1: "~TC"}, "n_d": {0: "~TD", 1: "~TD"}, "n_b": {0: "~TB", 1: "~TB"},
+    "n_cl": {1: "~TC"}, "n_cb": {0: "~T"}, "n_cb2": {2: "~T"},
 }
 
 # argument pools: name -> constructor of the pyanalyze Value (built lazily)
@@ -105,6 +125,9 @@ FRIENDLY = {
     "f_a": ["t_A", "t_B", "kAinst", "kBinst", "any"],
     "f_c": ["k1", "kTrue", "ka", "t_int", "t_str", "t_bool", "any"],
     "f_d": ["k1", "k1_5", "ka", "t_float", "t_str", "t_A", "t_B", "kAinst", "t_int", "any"],
+    "n_c": ["k1", "kTrue", "ka", "t_int", "t_str", "t_bool"],
+    "n_d": ["k1", "k1_5", "ka", "t_float", "t_str", "t_A", "kAinst", "t_int"],
+    "n_b": ["k1", "kTrue", "k1_5", "t_int", "t_float", "t_bool"],
 }
 
 _vals = {}
@@ -208,6 +231,32 @@ def check_call(sig_name, arg_names):
             s = by_name.get(tvn)
             if s is not None and not s.is_assignable(arg_value(arg_names[i]), c):
                 out["failures"].append({"what": f"solution {s} of {tvn} does not accept argument {i} = {arg_value(arg_names[i])}", "kind": "argument", "accepted": not out["diagnosed"]})
+    # independent of the solver: brute force over the candidate values of the universe (every atom,
+    # every bound's own value, the union of all lower bounds, Never; not Any) — "when no such value
+    # exists the call is diagnosed"
+    from pyanalyze.value import NO_RETURN_VALUE, unite_values
+
+    out["unsatisfiable"] = []
+    for tv, bounds in bm.items():
+        lows = [b.value for b in bounds if isinstance(b, LowerBound)]
+        ups = [b.value for b in bounds if isinstance(b, UpperBound)]
+        cons = [b.constraints for b in bounds if isinstance(b, IsOneOf)]
+        if any(isinstance(v, AnyValue) for v in lows + ups):
+            continue
+        cands = [v for _, v in u.atoms()] + lows + ups + [o for cs in cons for o in cs] + [NO_RETURN_VALUE]
+        if lows:
+            cands.append(unite_values(*lows))
+
+        def sat(v):
+            return (all(v.is_assignable(x, c) for x in lows) and all(x.is_assignable(v, c) for x in ups)
+                    and all(any(v == o for o in cs) for cs in cons))
+
+        if not any(sat(v) for v in cands):
+            out["unsatisfiable"].append(str(tv))
+            if not out["diagnosed"]:
+                out["failures"].append({"what": f"no candidate value satisfies the bounds of {tv} ({', '.join(str(b) for b in bounds if not isinstance(b, (IsOneOf, OrBound)))}"
+                                                + "".join(f", {tv} in ({', '.join(map(str, cs))})" for cs in cons) + ") but the call is accepted",
+                                        "kind": "unsatisfiable", "accepted": True})
     for tv, bounds in bm.items():
         out["bounds"] += len(bounds)
         if tv not in tv_map or errors:
